@@ -23,6 +23,8 @@ pub struct Mix {
     pub w7: (u64, u64),
     /// W4c barely mobile movers, one turn each (games quick, games thorough), not multiplied
     pub w4c: (u64, u64),
+    /// W5e null turns on wide-open positions (games quick, games thorough), not multiplied
+    pub w5e: (u64, u64),
     pub max_turns: u32,
     pub long_w3: (u64, u64), // extra W3 games with 2000-turn cap
     pub text_per_mille: u32,
@@ -35,7 +37,7 @@ pub struct Mix {
 }
 impl Default for Mix {
     fn default() -> Self {
-        Mix { w1: (0, 0), w2: (0, 0), w3: (0, 0), w5: (0, 0), w5b: (0, 0), w5c: (0, 0), w5d: (0, 0), w7c: (0, 0), w7: (0, 0), w4c: (0, 0), max_turns: 200, long_w3: (0, 0), text_per_mille: 20, tree_per_mille: 0, sweep2: false, sweep3: (0, 0), sweep_depth: 2, sweep4_thorough: false }
+        Mix { w1: (0, 0), w2: (0, 0), w3: (0, 0), w5: (0, 0), w5b: (0, 0), w5c: (0, 0), w5d: (0, 0), w7c: (0, 0), w7: (0, 0), w4c: (0, 0), w5e: (0, 0), max_turns: 200, long_w3: (0, 0), text_per_mille: 20, tree_per_mille: 0, sweep2: false, sweep3: (0, 0), sweep_depth: 2, sweep4_thorough: false }
     }
 }
 
@@ -61,6 +63,9 @@ pub fn run_mix(cfg: &Cfg, mix: &Mix, make: &(dyn Fn() -> Box<dyn Monitor> + Sync
         }
         if mix.w5d.1 > 0 {
             play_takebacks(cfg.n(mix.w5d.0, mix.w5d.1), cfg.seed, w, m, sink);
+        }
+        if mix.w5e.1 > 0 {
+            play_null_turns(cfg.n(mix.w5e.0, mix.w5e.1), cfg.seed, w, m, sink);
         }
         if mix.w4c.1 > 0 {
             play_barely_mobile(cfg.n(mix.w4c.0, mix.w4c.1), cfg.seed, w, m, sink);
@@ -167,7 +172,7 @@ pub fn c03(cfg: &Cfg) -> i32 {
 pub fn c05(cfg: &Cfg) -> i32 {
     // a seventh of the games ask play states for the offered list only (the monitor does not use the rule-only list)
     crate::driver::OFFERED_ONLY_PER_MILLE.store(150, std::sync::atomic::Ordering::Relaxed);
-    let mix = Mix { w1: (200, 5000), w3: (1200, 30000), w5: (1200, 30000), w5b: (150, 4000), w5c: (8, 200), w5d: (300, 6000), w7c: (40, 800), w7: (10, 200), long_w3: (0, 60), max_turns: 200, ..Mix::default() };
+    let mix = Mix { w1: (200, 5000), w3: (1200, 30000), w5: (1200, 30000), w5b: (150, 4000), w5c: (8, 200), w5d: (300, 6000), w7c: (40, 800), w7: (10, 200), w5e: (20_000, 600_000), long_w3: (0, 60), max_turns: 200, ..Mix::default() };
     let sink = run_mix(cfg, &mix, &|| Box::new(C05::default()));
     let floors = vec![
         floor("turn_ends_judged", 200_000, 2_000_000),
@@ -181,6 +186,8 @@ pub fn c05(cfg: &Cfg) -> i32 {
         floor("setup_cycler_scripts_built", 500, 10_000),
         floor("takeback_scripts_takeback_by_fourth_step", 100, 2000),
         floor("takeback_scripts_takeback_by_pass", 1000, 20_000),
+        floor("null_turn_scripts", 100_000, 3_000_000),
+        floor("games_on_the_offered_only_diet", 5000, 100_000),
         floor("third_repetition_attempts_after_turn_256", 20, 500),
         floor("longest_game_turns", 400, 1500),
     ];
@@ -188,7 +195,7 @@ pub fn c05(cfg: &Cfg) -> i32 {
 }
 
 pub fn c06(cfg: &Cfg) -> i32 {
-    let mix = Mix { w1: (300, 8000), w2: (200, 5000), w3: (1200, 30000), w5: (1200, 30000), w5b: (150, 4000), w5c: (8, 200), w5d: (300, 6000), w7c: (40, 800), w7: (10, 200), long_w3: (0, 60), ..Mix::default() };
+    let mix = Mix { w1: (300, 8000), w2: (200, 5000), w3: (1200, 30000), w5: (1200, 30000), w5b: (150, 4000), w5c: (8, 200), w5d: (300, 6000), w7c: (40, 800), w7: (10, 200), w5e: (10_000, 300_000), long_w3: (0, 60), ..Mix::default() };
     let sink = run_mix(cfg, &mix, &|| Box::new(C06::default()));
     let floors = vec![
         floor("states_judged", 300_000, 3_000_000),
